@@ -8,7 +8,7 @@ namespace tbfsim {
 template <class Cfg> struct AlgoSelect<Cfg, EX_SPECX> { using type = TbfSmSpecxAlgorithm<typename Cfg::Real, Probe<typename Cfg::Inner>, typename Cfg::Space>; };
 template <class Cfg> struct AlgoSelect<Cfg, EX_SPECX_TSM> { using type = TbfSmSpecxAlgorithmTsm<typename Cfg::Real, Probe<typename Cfg::Inner>, typename Cfg::Space>; };
 
-struct CfgWeightSpecx {
+struct CfgWeightSpecx : CfgCommon {
     using Real = double;
     using Space = TbfDefaultSpaceIndexType<double>;
     static constexpr long NbData = 4;
